@@ -395,3 +395,8 @@ pub fn replay(ctx: &mut Ctx, ext: &str, bytes: &[u8]) -> Result<Option<String>, 
         }
     }
 }
+
+/// hostile/valid line generator for other properties' documents
+pub fn gen_line_pub(t: &mut Tape, hostile: bool, clock: &mut f64) -> String {
+    gen_line(t, hostile, false, clock)
+}
